@@ -6,7 +6,7 @@ from . import common
 
 PROP = "C09"
 KQ = ("J", "BL")
-KT = KQ + ('NL', 'CE')
+KT = KQ + ('NL',)
 MAX_STEPS = 6
 _memo = {}  # (cfg key, text hash) -> "fixpoint"
 
